@@ -43,6 +43,22 @@ def gen(tier, rnd):
             if mc: L.append('parse %s %d %s %s' % (kind, mx, m.hex(), ','.join(map(str, mc))))
         if len(m) < 300 and i % 5 == 0 and len(m) >= 2:
             L.append('parse %s %d %s %s' % (kind, mx, m.hex(), ','.join(map(str, range(1, len(m))))))
+    # memory: announced sizes far above what is sent, body split across reads in every way (capacity of the body is reported)
+    for cl in ['1000000000', '3000000000', '9223372036854775807', '18446744073709551615', '99999', '4097']:
+        m = ('POST / HTTP/1.1\r\nContent-Length: %s\r\n\r\n' % cl).encode() + b'0123456789' * 3
+        h = m.index(b'\r\n\r\n') + 4
+        for cuts in ['-', str(h), '%d,%d' % (h, h + 1), '%d,%d' % (h + 5, h + 9), '%d,%d,%d' % (h - 3, h + 1, h + 2), ','.join(map(str, range(h, len(m))))]:
+            L.append('pmem req 4096 %s %s' % (m.hex(), cuts))
+            L.append('pmem resp 4096 %s %s' % (m.replace(b'POST / HTTP/1.1', b'HTTP/1.1 200 OK').hex(), cuts))
+    for cs in ['40000000', '7fffffff', '7fffffffffffffff', 'fffff', '1001']:
+        m = ('POST / HTTP/1.1\r\nTransfer-Encoding: chunked\r\n\r\n%s\r\n' % cs).encode() + b'0123456789' * 3
+        h = len(m) - 30
+        for cuts in ['-', str(h), '%d,%d' % (h, h + 1), '%d,%d' % (h + 5, h + 9), ','.join(map(str, range(h - 2, len(m))))]:
+            L.append('pmem req 4096 %s %s' % (m.hex(), cuts))
+    for i in range(n // 3):
+        m = G.mutate(rnd, G.request(rnd, rnd.choice(['cl', 'chunked'])), 1)
+        mc = G.multi_cuts(rnd, len(m), rnd.choice([1, 2, 4]))
+        L.append('pmem req 4096 %s %s' % (m.hex() or '-', ','.join(map(str, mc)) or '-'))
     for i in range(n // 3):
         g = bytes(rnd.choice([rnd.randrange(256), 13, 10, 32, 58]) for _ in range(rnd.randint(0, 120)))
         L.append('parse %s 4096 %s %s' % (rnd.choice(['req', 'resp']), g.hex() or '-', rnd.choice(['-', '1', '2,5'] if len(g) > 6 else ['-'])))
@@ -54,6 +70,14 @@ OKCODES = {'E400', 'E413', 'E415', 'E500', 'E501', 'F413'}
 def oracle(line, out):
     if any(x in out for x in BAD):
         return ('memory', 'implementation aborted/hung on network input: ' + out[:200])
+    w = line.split()
+    if w[0] == 'pmem':
+        m = re.match(r'cap=(\d+) last=(\S+)', out)
+        if not m: return ('protocol', 'unexpected output ' + out[:80])
+        cap, mx = int(m.group(1)), int(w[2])
+        if cap > 2 * mx + 64:
+            return ('reserve', 'body storage reserved %d bytes with a request size limit of %d (input sent %d bytes)' % (cap, mx, len(w[3]) // 2))
+        return None
     segs = out.split(' | ')[0].split(',')
     last = segs[-1]
     if last not in ('A', 'D') and last not in OKCODES:
@@ -64,7 +88,7 @@ def oracle(line, out):
 
 def classify(line, out):
     w = line.split()
-    return (w[1], w[3][:36], out.split(' | ')[0][-5:], w[4][:4])
+    return (w[0], w[1], w[3][:36], out.split(' | ')[0][-5:], w[4][:4])
 
 RULE = ('every registered header x a garbage value list (overlong numbers, missing/doubled separators, NUL/0xFF, truncated values), whole and cut inside the value; every prefix of every stress message as the '
         'complete input (lines truncated exactly at the end of the buffer); seeded multi-mutation messages x segmentations x size limits; random garbage. ASan+UBSan+vector annotations, exact-size segment buffers, 5 s watchdog. '
